@@ -139,6 +139,7 @@ class _ReadSourceGenerator:
         bits_remaining = 0
         bits_rollover = False
         block_offset = None
+        block_end = None
 
         def flush() -> Iterator[str]:
             if current_block:
@@ -231,12 +232,25 @@ class _ReadSourceGenerator:
                 if self.align and field.offset is None:
                     # Without static offsets every field is aligned on the stream position at run time
                     yield from flush()
+                backwards = field.offset is not None and block_end is not None and field.offset < block_end
+                if current_block and backwards:
+                    # An explicit offset that goes back into (or before) the running block: read it on its own
+                    yield from flush()
                 if not current_block:
-                    block_offset = current_offset
+                    # After going backwards the stream is certainly not where the new block starts
+                    block_offset = None if backwards else current_offset
                 current_block.append(field)
+                block_end = field.offset + size if field.offset is not None and size is not None else None
 
-            if current_offset is not None and size is not None and (not field.bits or bits_rollover):
-                current_offset += size
+            if size is None:
+                # After a variable-size field we don't know where the stream is
+                current_offset = None
+            elif not field.bits or bits_rollover:
+                if field.offset is not None:
+                    # Keep track of where the stream really is, fields may have been moved by explicit offsets
+                    current_offset = field.offset
+                if current_offset is not None:
+                    current_offset += size
                 bits_rollover = False
 
         yield from flush()
